@@ -254,6 +254,8 @@ type behMember struct {
 	// the existence rules switched off at build time (names supplied at run time through OverrideParam / OverrideService)
 	IgnoreP bool `json:"ignore_missing_params,omitempty"`
 	IgnoreS bool `json:"ignore_missing_services,omitempty"`
+	// further declarations of the container's own package (see ref.LocalAliases)
+	LocalExtra string `json:"local_extra,omitempty"`
 }
 
 type behCase struct {
@@ -312,7 +314,7 @@ func behBatch(t tb, c behCase, nontrivial func(m behMember, merged cfg.Config) b
 			continue
 		}
 		pkg, typ, ctor := expectedNames(merged)
-		cont := &fx.Container{Name: u.NextName(), Pkg: pkg, Type: typ, Ctor: ctor, Source: o.Out, Script: m.Script}
+		cont := &fx.Container{Name: u.NextName(), Pkg: pkg, Type: typ, Ctor: ctor, Source: o.Out, Script: m.Script, LocalExtra: m.LocalExtra}
 		col.Sample("probed", 2, map[string]any{"files": spec.Files, "script": m.Script, "labels": m.Labels})
 		o.cleanup()
 		ctxs = append(ctxs, behContext{M: m, Merged: merged, Cont: cont, One: one})
